@@ -18,7 +18,7 @@ from numpy import ndarray
 from scipy.integrate import quad
 from scipy.constants import pi
 
-from .devices import GET_EYE, SAMPLER, LPF
+from .devices import GET_EYE, SAMPLER, LPF, _inexact
 from .typing import binary_sequence, electrical_signal, eye, gv, Array_Like
 from .utils import tic, toc, str2array, dec2bin, Q
 
@@ -232,14 +232,16 @@ def SDD(input: electrical_signal, M: int) -> binary_sequence:
     if M < 1 or M & (M-1) != 0:
         raise ValueError("`M` must be a power of 2.")
     
+    # samples are promoted to float64 / complex128 before they are added and integrated: in the dtype of the input an
+    # integer signal + noise wraps around and a float16 slot sum overflows
     if isinstance(input, electrical_signal):
         if input.noise is not None:
-            input = input.signal + input.noise
+            input = _inexact(input.signal) + _inexact(input.noise)
         else:
-            input = input.signal
+            input = _inexact(input.signal)
 
     elif isinstance(input, Array_Like):
-        input = np.array(input)
+        input = _inexact(np.array(input))
     
     if input.size % (M*gv.sps) != 0:
         raise ValueError("The length of `input` must be a multiple of `M*sps`.")
